@@ -517,16 +517,27 @@ MAIN_DIFF = dict(region='main_diff', file='cmdline/snapraid.c', begin='if (opera
                  proto='static void region_main_diff(struct snapraid_state *state_p)', prologue='\tstruct snapraid_state state = *state_p;\n\tint ret;', epilogue='\t*state_p = state;')
 
 
+MAIN_OPS = dict(region='main_ops', file='cmdline/snapraid.c', begin='#define OPERATION_DIFF 0', include_begin=True, end='#define OPERATION_SMART 17', include_end=True, max_lines=20, expect_loops=0,
+                proto='static void region_main_ops(void)')
+MAIN_DISPATCH = dict(region='main_dispatch', file='cmdline/snapraid.c', begin='if (operation == OPERATION_DIFF) {', include_begin=True, end='/* close log file */', max_lines=260, expect_loops=0,
+                     proto='static void region_main_dispatch(struct snapraid_state *state_p, struct snapraid_option *opt_p, int operation, const char *run, const char *import_timestamp, const char *import_content)',
+                     prologue='\tstruct snapraid_state state = *state_p;\n\tstruct snapraid_option opt = *opt_p;\n\tint ret;\n\tblock_off_t blockstart = 0, blockcount = 0;\n\ttommy_list filterlist_file, filterlist_disk;\n\tint filter_missing = 0, filter_error = 0, plan = 0, olderthan = 0;\n\ttommy_list_init(&filterlist_file);\n\ttommy_list_init(&filterlist_disk);',
+                     epilogue='\t*state_p = state;')
+
+
 def main_obs():
     M = 'harness/h_main.c'
-    return [Ob('main.config.region', M, 'h_main_config', inject=[MAIN_CONFIG, MAIN_SYNC, MAIN_DIFF], unwind=4, small_path=True, timeout=600, mem=6, cost=3,
+    return [Ob('main.config.region', M, 'h_main_config', inject=[MAIN_CONFIG, MAIN_SYNC, MAIN_DIFF, MAIN_OPS, MAIN_DISPATCH], unwind=4, small_path=True, timeout=600, mem=6, cost=3,
                functions=['main: region "state_init(&state)" .. before the command dispatch (cmdline/snapraid.c, extracted mechanically)'],
                note='configured mode Cauchy / Vandermonde, lock file configured or not, --test-skip-lock, lock_lock succeeding / failing with any errno; every callee a recording stub'),
-            Ob('main.sync_branch.region', M, 'h_main_sync', inject=[MAIN_CONFIG, MAIN_SYNC, MAIN_DIFF], unwind=4, small_path=True, timeout=600, mem=6, cost=3,
+            Ob('main.sync_branch.region', M, 'h_main_sync', inject=[MAIN_CONFIG, MAIN_SYNC, MAIN_DIFF, MAIN_OPS, MAIN_DISPATCH], unwind=4, small_path=True, timeout=600, mem=6, cost=3,
                functions=['main: the OPERATION_SYNC branch (cmdline/snapraid.c, extracted mechanically)'],
                note='every outcome of scan / sync / test command, need_write set by scan or by sync, forced content write, kill-after-sync; every callee a recording stub'),
-            Ob('main.diff_branch.region', M, 'h_main_diff', inject=[MAIN_CONFIG, MAIN_SYNC, MAIN_DIFF], unwind=4, small_path=True, timeout=600, mem=6, cost=2,
-               functions=['main: the OPERATION_DIFF branch (cmdline/snapraid.c, extracted mechanically)'], note='every return value of state_diff')]
+            Ob('main.diff_branch.region', M, 'h_main_diff', inject=[MAIN_CONFIG, MAIN_SYNC, MAIN_DIFF, MAIN_OPS, MAIN_DISPATCH], unwind=4, small_path=True, timeout=600, mem=6, cost=2,
+               functions=['main: the OPERATION_DIFF branch (cmdline/snapraid.c, extracted mechanically)'], note='every return value of state_diff'),
+            Ob('main.dispatch.region', M, 'h_main_dispatch', inject=[MAIN_CONFIG, MAIN_SYNC, MAIN_DIFF, MAIN_OPS, MAIN_DISPATCH], unwind=4, small_path=True, timeout=600, mem=6, cost=4,
+               functions=['main: the whole command dispatch "if (operation == OPERATION_DIFF)" .. "close log file" (cmdline/snapraid.c, extracted mechanically, with its OPERATION_* definitions)'],
+               note='every operation code, every outcome of the command, audit-only, import options; every state_* callee a recording stub')]
 
 
 def c14(tier, seed):
@@ -551,6 +562,36 @@ def c14(tier, seed):
            functions=['parity_allocated_size (cmdline/parity.c)', 'block_has_file (cmdline/elem.h)'], note='fs_size / fs_par2block_find by stub over a symbolic block table'),
     ]
     return obs + main_obs() + scanfile_obs()[:1]
+
+
+OPEN_NOATIME = dict(region='open_noatime', file='cmdline/unix.c', begin='int open_noatime(const char* file, int flags)', end='int dirent_hidden(struct dirent* dd)', max_lines=16, expect_loops=0,
+                    proto='static int real_open_noatime(const char *file, int flags)', epilogue='\treturn -1;')
+ADVISE_FLAGS = dict(region='advise_flags', file='cmdline/support.c', begin='int advise_flags(struct advise_struct* advise)', end='int advise_open(struct advise_struct* advise, int f)', max_lines=24, expect_loops=0,
+                    proto='static int real_advise_flags(struct advise_struct *advise)', epilogue='\treturn 0;')
+
+
+CHECK_PARITY = dict(region='check_parity', file='cmdline/check.c', scope='int state_check(struct snapraid_state* state, int fix, block_off_t blockstart, block_off_t blockcount)',
+                    begin='if (fix) {', include_begin=True, end='/* abort if error are present */', end_first_after=True, max_lines=110, expect_loops=4,
+                    proto='static int region_check_parity(struct snapraid_state *state, int fix, block_off_t blockstart, block_off_t blockmax, data_off_t size)',
+                    prologue='\tstruct snapraid_parity_handle parity[LEV_MAX];\n\tstruct snapraid_parity_handle *parity_ptr[LEV_MAX];\n\tunsigned error;\n\tunsigned l;\n\tint ret;',
+                    epilogue='\treturn error != 0 ? -1 : 0;')
+
+
+def openmode_obs():
+    O = 'harness/h_openmode.c'
+    return [Ob('handle.open.readonly', O, 'h_handle_open', inject=[OPEN_NOATIME, ADVISE_FLAGS, CHECK_PARITY], unwind=10, small_path=True, timeout=900, mem=6, cost=4, replay=False,
+               functions=['handle_open (cmdline/handle.c)', 'open_noatime (cmdline/unix.c, extracted mechanically)', 'advise_flags (cmdline/support.c, extracted mechanically)'],
+               note='every advise mode, every outcome / errno of open (incl. the EPERM retry without O_NOATIME), fstat and advise; open / fstat / close / advise_open by stub'),
+            Ob('parity.open.readonly', O, 'h_parity_open', inject=[OPEN_NOATIME, ADVISE_FLAGS, CHECK_PARITY], unwind=10, small_path=True, timeout=900, mem=6, cost=6, replay=False,
+               functions=['parity_open (cmdline/parity.c)', 'open_noatime (cmdline/unix.c, extracted mechanically)', 'advise_flags (cmdline/support.c, extracted mechanically)'],
+               note='0..8 splits (SPLIT_MAX, fully unwound), every advise mode, every outcome / errno of each open, every recorded / real size'),
+            Ob('check.parity_open.region', O, 'h_check_parity', inject=[OPEN_NOATIME, ADVISE_FLAGS, CHECK_PARITY], unwind=8, small_path=True, timeout=900, mem=6, cost=5, replay=False,
+               functions=['state_check: region "if (fix)" .. "abort if error are present" (cmdline/check.c, extracted mechanically)'],
+               note='check / fix / audit-only, 1..6 parity levels, every skip / exclusion / open / create / resize outcome; parity_* and state_check_process by recording stub')]
+
+
+def c12(tier, seed):
+    return openmode_obs() + [o for o in main_obs() if o.name in ('main.dispatch.region', 'main.diff_branch.region')]
 
 
 def c11(tier, seed):
@@ -653,6 +694,7 @@ PROPS = {
     'C20': dict(level='other', obligations=c20, explanation='', trusted_base=[], assumptions=[], not_covered=[]),
     'C14': dict(level='other', obligations=c14, explanation='', trusted_base=[], assumptions=[], not_covered=[]),
     'C11': dict(level='other', obligations=c11, explanation='', trusted_base=[], assumptions=[], not_covered=[]),
+    'C12': dict(level='other', obligations=c12, explanation='', trusted_base=[], assumptions=[], not_covered=[]),
     'C05': dict(level='other', obligations=c05, explanation='', trusted_base=[], assumptions=[], not_covered=[]),
     'C06': dict(level='other', obligations=c06, explanation='', trusted_base=[], assumptions=[], not_covered=[]),
     'C19': dict(level='other', obligations=c19, explanation='', trusted_base=[], assumptions=[], not_covered=[]),
@@ -792,7 +834,7 @@ def c16(tier, seed):
 
 
 def c04(tier, seed):
-    c15 = [o for o in PROPS['C15']['obligations'](tier, seed) if o.name in ('scrub.mark.region', 'scrub.block_is_enabled', 'scrub.info_word')]
+    c15 = [o for o in PROPS['C15']['obligations'](tier, seed) if o.name in ('scrub.mark.region', 'scrub.classify.region', 'scrub.block_is_enabled', 'scrub.info_word')]
     return [o for o in check_obs(tier) if o.name == 'check.blockcmp'] + sync_hash_obs() + c15
 
 
@@ -832,6 +874,13 @@ PROPS['C11'].update(
     not_covered=['scan_dir, scan_disk, scan_link, scan_emptydir', 'state_diffscan insertion order / delayed allocation', 'list.c', 'histories of operations'])
 MANIFEST_TEXT['C11'] = dict(level_text='Narrow: how one directory entry is classified against the recorded state (and therefore re-read or trusted) and when diff reports a difference are per-call statements and are decided for all inputs; the directory walk, removal detection, links and the agreement of list / check with the real tree are not - level other.',
                             design_ref='DESIGN.md section 4', level_note='callees and index structures by stub; scan_dir / scan_disk not covered', technique='CBMC drivers on the mechanically extracted body of scan_file and regions of state_diffscan / main; bounded unit on real cmdline/parity.c')
+PROPS['C12'].update(
+    explanation='Only the per-call parts of the statement, each on the real code: (1) the command dispatch of main() (extracted with its OPERATION_* definitions, every state_* callee a recording stub that may leave the state marked as changed): status, diff, list, dup, check, dry and the device commands start nothing that writes data, parity or content (no state_sync / state_scrub / state_touch / state_rehash / state_pool / state_write, and state_check only with fix = 0); scrub may only scrub and save the content file; sync only sync and save; fix runs state_check with fix = 1 and never saves the content file; pool only state_pool; touch only state_touch and save; an audit-only check starts no import / search. (2) state_check: without the fix flag the parity is only ever opened with parity_open - never created, resized or truncated - and not at all with -a; the fix flag reaches state_check_process unchanged. (3) handle_open (how sync, scrub, check and dry open DATA files) and parity_open (how check, scrub and dry open PARITY): every open() issued has access mode O_RDONLY and neither O_CREAT, O_TRUNC nor O_APPEND, through the real open_noatime and advise_flags.',
+    trusted_base=['region extraction of main() and state_check; open_noatime (unix.c) and advise_flags (support.c) extracted', 'open / fstat / close / advise_open and every state_* callee by stub'],
+    assumptions=['that the processing loops (state_sync_process, state_scrub_process, state_check_process without fix, state_status, state_list, state_dup, state_diffscan) issue no other mutating system call than through the functions above is NOT under an obligation - it is a statement over every call site of those loops (a syntactic fact: scrub.c, sync.c, dry.c reference no handle_create / handle_write / handle_truncate / unlink / rename; check.c only under `if (fix)`), not a contract', 'what fix may write (only what it reports as fixed), pool, touch, the log and lock files are NOT under an obligation'],
+    not_covered=['state_check_process (fix write-back guards)', 'state_pool, state_touch', 'log / lock file creation', 'the frame "nothing else changed" over the file system'])
+MANIFEST_TEXT['C12'] = dict(level_text='Narrow: which top-level operations each command may start, how check / fix choose between read-only and writable parity, and the open flags of the read-only open functions are per-call statements and are decided for all inputs; that the processing loops touch the file system only through those functions, and the whole-process frame, are not - level other.',
+                            design_ref='DESIGN.md section 4', level_note='callees by stub; the frame over the file system and the call sites inside the processing loops are not decided', technique='CBMC drivers on mechanically extracted regions of real cmdline/snapraid.c and check.c and on real handle.c / parity.c open functions')
 PROPS['C19'] = dict(level='other', obligations=c19)
 PROPS['C19'].update(
     explanation='Every place where data or a hash is taken over without having been computed from the file at hand, each on the real code. (1) scan_file (whole body, callees by recording stub): a file keeps its object - blocks, hashes, parity positions - only when found by inode or by path with the same size and time-stamp; anything else becomes a NEW file object; hashes are inherited (file_copy) only with copy detection on, only from a file the stamp index returned for name (with a usable sub-second stamp) or path + size + time-stamp, and only if file_is_full_hashed_and_stable says so (real: blocks exist, all BLK/REP, none awaiting rehash). (2) file_copy (real): every inherited block becomes REP - provisional, parity not valid - never BLK. (3) sync hash region: a REP block whose data does not match stops the stripe with an error, is neither recorded nor repaired; BLK mismatch is a silent error; together with the completion region of C06 the data is hashed before the stripe is recorded. (4) pre-hash region (sync -h): any mismatch of a provisional hash sets skip_sync before parity is touched. (5) check / fix: state_import_fetch and search_file_compare / state_search_fetch (real) return data only after reading and hashing it in that call and comparing with the recorded hash of the block being replaced, whatever its state.',
@@ -863,7 +912,7 @@ MANIFEST_TEXT.update({
     'C16': dict(level_text='Bit-for-bit stability of tables, checksum, codecs, layout and address map is decided against definitions outside the repo; the block hash functions are NOT pinned - hence other, with that gap stated.',
                 design_ref='DESIGN.md section 4', level_note='hash functions (murmur3/spooky2/metro) and record tags not pinned', technique='composition of the C02 / C09 / C10 / C17 obligations + file block layout'),
     'C04': dict(level_text='Detection and marking LOGIC is decided on the functions / regions that take those decisions; that every stripe is actually visited and the right file named is not - level other, narrow.',
-                design_ref='DESIGN.md section 4', level_note='memhash arbitrary; compare loops of scrub/check and status not covered', technique='composition: blockcmp + sync hash region + scrub mark region + scrub selection'),
+                design_ref='DESIGN.md section 4', level_note='memhash arbitrary; compare loops of scrub/check and status not covered', technique='composition: blockcmp + sync hash region + scrub classification and mark regions + scrub selection'),
     'C01': dict(level_text='Composition of the recovery engine obligations (C03) and the acceptance decisions of fix (C05); the history-level statement is not decided - level other, narrow.',
                 design_ref='DESIGN.md section 4', level_note='see C03 / C05; state_check_process, file_post, links/dirs not covered', technique='composition of C03 + C05 obligations'),
 })
